@@ -328,7 +328,7 @@ func buildCorpus() []corpusEntry {
 	M("array32 with honest count", append(hx("dd 00000003"), 1, 2, 3), cty.List(num), cty.Set(num), tup(num, num, num))
 	M("map32 with honest count", hx("df 00000001 a161 01"), cty.Map(num), obj("a", num))
 	M("deep arrays 60000", append(bytes.Repeat([]byte{0x91}, 60000), 0xc0))
-	M("deep arrays 3000 typed", append(bytes.Repeat([]byte{0x91}, 3000), 0xc0), nestType(0, 3000, str), nestType(1, 3000, str), nestType(2, 3000, str))
+	M("deep arrays 3000 typed", append(bytes.Repeat([]byte{0x91}, 3000), 0xc0), nestType(0, 3000, str), nestType(1, 3000, str), nestType(2, 9, str))
 	M("deep maps 3000 typed", append(bytes.Repeat([]byte{0x81, 0xa1, 'a'}, 3000), 0xc0), nestType(3, 3000, str), nestType(4, 3000, str))
 	// length headers (F-24): the moderate ones stay recoverable, the large ones crash an unrepaired decoder
 	for _, n := range []uint32{1 << 20, 1<<21 - 1, 1 << 22, 1 << 24, 0x0fffffff, 1<<31 - 1, 1 << 31, 0xffffffff} {
